@@ -49,6 +49,28 @@ def kind_subregions(actor, R, msg_variant):
         if rk:
             out[k] = rk & R
     if not out:
+        # a handler generic in the kind that tells its own kind from the other one by comparison (`if requested_kind != own_kind { .. }`, the own kind
+        # being a constant - possibly the argument of a shared handler spliced into this actor): there are exactly two kinds
+        other = {"Build": "Service", "Service": "Build"}
+        for e in actor.edges:
+            l = e.label
+            if not (l and l[0] == "bool" and l[2] is not None and e.src in R):
+                continue
+            for d in bool_atom_desc(actor, l[2]):
+                if d[0] != "call" or not re.search(r"PartialEq(<.*>)?>?::(eq|ne)$", d[1]) or len(d[2]) != 2:
+                    continue
+                is_msg = [any(a[0] == "field" and a[2] == "kind" and path_ends(a[1], "ActorInputMessage") for a in x) and ("variant", msg_variant) in x for x in d[2]]
+                consts = [atom_aggs(x, "ExecutionKind") if not m else set() for x, m in zip(d[2], is_msg)]
+                if sum(is_msg) != 1:
+                    continue
+                ks = next(c for c, m in zip(consts, is_msg) if not m)
+                if len(ks) != 1:
+                    continue
+                k = next(iter(ks))
+                equal = (d[1].endswith("::eq") and l[1] is True) or (d[1].endswith("::ne") and l[1] is False)
+                kk = k if equal else other[k]
+                out[kk] = out.get(kk, set()) | (actor.dominated_by_edge(e) & R)
+    if not out:
         out["*"] = R
     return out
 
@@ -392,6 +414,8 @@ def true_paths(body, start=0):
         ro = ret_origins(body, p, start)
         if is_const_ret(ro, "false"):
             continue
+        if not feasible_path(body, p, start=start):
+            continue   # contradictory on its face (a helper returned `None` and the caller matched `Some`)
         out.append((p, path_facts(body, p), ro))
     return out, len(allp)
 
@@ -560,8 +584,42 @@ def feasible_path(body, p, start=None):
     very path tested the other way (e.g. a predicate helper spliced into the view returned `true` and its caller took the `false` branch)"""
     seen_pol = {}
     blocks = ([p[0].src] if p else ([start] if start is not None else [])) + [e.dst for e in p]
+    # enum variants known along the path: a local assigned `Some(..)` / `None` / `Ok(..)` .. on this very path (typically by a helper spliced into the
+    # view: `fn ok_or_log(r) -> Option<T>`) cannot be matched as another variant further down
+    known = {}
+    TRY = {"Ok": "Continue", "Err": "Break", "Some": "Continue", "None": "Break"}
     for i, e in enumerate(p):
+        bb = blocks[i]
+        for st in body.stmts(bb):
+            if st["lhs"]["proj"]:
+                continue
+            L = st["lhs"]["local"]
+            rv = st["rv"]
+            if rv["k"] == "agg" and rv.get("variant") and "adt" in rv:
+                known[L] = rv["variant"]
+            elif rv["k"] in ("use", "ref"):
+                pl = rv.get("place") if rv["k"] == "ref" else (rv["op"]["place"] if rv["op"]["k"] in ("copy", "move") else None)
+                if pl is not None and not [pr for pr in pl["proj"] if pr["k"] != "deref"] and pl["local"] in known:
+                    known[L] = known[pl["local"]]
+                else:
+                    known.pop(L, None)
+            else:
+                known.pop(L, None)
+        t = body.term(bb)
+        if t["k"] == "call" and t.get("dest") is not None and not t["dest"]["proj"]:
+            d = t["dest"]["local"]
+            a0 = operand_local(t["args"][0]) if t["args"] else None
+            if t["callee"] and callee_base(t).endswith("ops::Try>::branch") and a0 in known and known[a0] in TRY:
+                known[d] = TRY[known[a0]]
+            elif not (e.label is None and any(st.get("ret_of") for st in body.stmts(e.dst))):
+                known.pop(d, None)
         l = e.label
+        if l and l[0] == "variant" and l[3] and not [pr for pr in l[3]["proj"] if pr["k"] != "deref"]:
+            v = known.get(l[3]["local"])
+            if v is not None and v not in l[2]:
+                return False
+            if len(l[2]) == 1:
+                known[l[3]["local"]] = l[2][0]
         if l and l[0] == "bool" and l[2] is not None:
             src = _bool_source_local(body, l[2])
             if src in seen_pol and seen_pol[src] != l[1]:
@@ -676,3 +734,26 @@ def success_region(f, body, depth=0):
     for e in ko:
         F |= body.reach_from(e.dst) | {e.dst}
     return G, F
+
+
+def bound_const(helper, op, cv, ct):
+    """constant ('true'/'false'/..) of operand `op` of constructor helper `helper` as seen at call `ct` in view `cv`: the operand itself when it is a
+    literal, else - when it is one of the helper's parameters - the literal the call passes (through moves and spliced-in wrappers); None otherwise"""
+    if op is None:
+        return None
+    v = const_val(op)
+    if v is not None:
+        return v
+    for a in helper.prov.operand_atoms(op, interproc=False):
+        if a[0] == "param" and a[1] - 1 < len(ct["args"]):
+            arg = ct["args"][a[1] - 1]
+            v = const_val(arg)
+            if v is not None:
+                return v
+            l = operand_local(arg)
+            if l is not None:
+                os_ = [o for o in origins(cv, l) if o[0] == "const"]
+                vals = {o[1] for o in os_}
+                if len(vals) == 1 and len(os_) == len([o for o in origins(cv, l) if o[0] != "param"]):
+                    return next(iter(vals))
+    return None
